@@ -190,7 +190,7 @@ def main():
         ntv, tvbad, progs = translation_validation(R, od)
 
     # (2) black box
-    bb = json.load(open(os.path.join(od, "c12_blackbox.json"))) if binp else []
+    bb = (json.load(open(os.path.join(od, "c12_blackbox.json"))) or []) if binp else []
     bchecks = 0
     for r in bb:
         bchecks += r["checks"]
